@@ -142,4 +142,42 @@ theorem findPivot_sound (θ : Nat) (ts : List TermList) (acc : Nat) (hacc : acc 
           have := hle doc
           rw [htot]; omega
 
+/-- the block-max refinement of `block_wand`: if the scorers at or before the pivot sit on blocks
+whose bounds add up to at most the threshold, no document that lies within all these blocks and
+before the current document of every other scorer can beat the threshold — this is the range
+`[pivot_doc, doc_to_seek_after)` that `block_max_was_too_low_advance_one_scorer` passes over. -/
+theorem blockRule_sound (θ : Nat) (prefix_ : List BlockView) (suffix : List TermList) (doc : Nat)
+    (hub : ∀ b, b ∈ prefix_ → ∀ p, p ∈ b.t.postings → p.1 ≤ b.lastDoc → p.2 ≤ b.blockMax)
+    (hin : ∀ b, b ∈ prefix_ → doc ≤ b.lastDoc)
+    (hsuf : ∀ t, t ∈ suffix → ∀ p, p ∈ t.postings → doc < p.1)
+    (hsum : (prefix_.map (·.blockMax)).sum ≤ θ) :
+    totalScore (prefix_.map (·.t) ++ suffix) doc ≤ θ := by
+  have hsuf0 : totalScore suffix doc = 0 := by
+    induction suffix with
+    | nil => rfl
+    | cons x xs ih =>
+      have hx0 : x.scoreOf doc = 0 := scoreOf_eq_zero x doc fun p hp' he => by
+        have := hsuf x (by simp) p hp'; omega
+      have : totalScore (x :: xs) doc = x.scoreOf doc + totalScore xs doc := by simp [totalScore]
+      rw [this, hx0, ih fun t' ht' => hsuf t' (by simp [ht'])]
+  have happ : ∀ l₁ l₂ : List TermList, totalScore (l₁ ++ l₂) doc = totalScore l₁ doc + totalScore l₂ doc := by
+    intro l₁ l₂; simp [totalScore, sum_append_nat]
+  rw [happ, hsuf0, Nat.add_zero]
+  suffices h : totalScore (prefix_.map (·.t)) doc ≤ (prefix_.map (·.blockMax)).sum by omega
+  induction prefix_ with
+  | nil => simp [totalScore]
+  | cons b bs ih =>
+    have hb : b.t.scoreOf doc ≤ b.blockMax := by
+      unfold TermList.scoreOf
+      cases hf : b.t.postings.find? (·.1 == doc) with
+      | none => exact Nat.zero_le _
+      | some p =>
+        have hp := mem_of_find?_eq_some hf
+        have hd : p.1 = doc := by simpa using find?_some hf
+        exact hub b (by simp) p hp (by rw [hd]; exact hin b (by simp))
+    have hrest := ih (fun b' hb' => hub b' (by simp [hb'])) (fun b' hb' => hin b' (by simp [hb']))
+      (by simp only [map_cons, sum_cons] at hsum; omega)
+    simp only [map_cons, sum_cons, totalScore] at hrest ⊢
+    omega
+
 end TantivyModel.Wand
